@@ -104,7 +104,7 @@ pub fn run(args: &[String]) -> i32 {
                 // are then not the components any more)
                 let structural = label.split(" & ").all(|d| {
                     let atom = d.rsplit('.').next().unwrap_or("");
-                    d.is_empty() || ["min", "max", "absent", "1line", "maxlines", "code-other"].contains(&atom) || d.ends_with("lastline.max")
+                    d.is_empty() || ["min", "max", "absent", "1line", "maxlines", "code-other", "plainname"].contains(&atom) || d.ends_with("lastline.max")
                         || atom.ends_with("-max") || atom == "AMT-maxc" || (atom.starts_with("alt") && atom[3..].chars().all(|c| c.is_ascii_digit()) && atom.len() > 3)
                         || atom.starts_with("mid=")
                 });
@@ -131,7 +131,7 @@ pub fn run(args: &[String]) -> i32 {
                             if let Some(why) = crate::comps::differs(*kind, part, o.json.get(*key)) {
                                 let mut r = replay.clone();
                                 r["detail"] = json!({"component": k, "member": key, "why": why, "json": o.json});
-                                let e = c03.entry(format!("C03|Field{}|component-not-exposed|{}", tag, key)).or_insert((0, r));
+                                let e = c03.entry(format!("C03|Field{}|component-not-exposed|{}|{}", tag, key, lab)).or_insert((0, r));
                                 e.0 += 1;
                             }
                         }
